@@ -200,7 +200,8 @@ fn enf_case(rng: &mut Rng, sum: &mut Summary, thorough: bool) -> EnfCase {
     let cfg = pick_cfg(rng);
     let mut real = RealEnf::new(&cfg);
     let rich = rng.chance(2, 3);
-    let pool = make_pool(rng, 2, rng.range(1, 3), rng.range(1, 3), 2, rng.range(1, 3), rng.range(1, 3), 2);
+    let (p1, p2, p3, p4) = (rng.range(1, 3), rng.range(1, 3), rng.range(1, 3), rng.range(1, 3));
+    let pool = make_pool(rng, 2, p1, p2, 2, p3, p4, 2);
     let mut ops = vec![]; let mut obs = vec![];
     let mut admitted: Vec<(Ip, Attrs)> = vec![];
     let mut wf = true;
